@@ -23,21 +23,31 @@ Record case := {
   c_mods : list dotted;    (* absolute names of the modules and packages of the generated world *)
   c_faithful : bool;       (* harness: for every star-imported module rope's public-name list is the set
                               CPython's star import binds (the module has no restricting __all__) *)
-  c_cmp_used : bool        (* harness: no renamed object is also reached through another path (rope renames
-                              by object identity, the model by spelling) *)
+  c_cmp_used : bool;       (* harness: no from-import of a standard module (the standard library re-exports
+                              objects, so an object is not identified by its canonical path) *)
+  c_pystar : list (modref * list text);
+                           (* the names CPython's star import binds, for the star-imported modules where
+                              they differ from rope's list (the module defines __all__) *)
+  c_true_used : list dotted;
+                           (* the primaries CPython's scoping really uses (c_used is what rope's finder, as
+                              modelled in Unbound.v, sees: it misses a name used only in a default value or
+                              decorator of a function that has a local of the same name) *)
+  c_hidden : list dotted   (* the primaries with an occurrence that CPython uses and rope's finder (and so its
+                              renaming) does not see *)
 }.
 
 Definition prefs_of (c : case) : prefs := {| p_split := c_split c; p_alpha := c_alpha c |}.
 
-Definition run_model (c : case) : option (list stmt * list dotted) :=
+Definition model_on (c : case) (stmts : list stmt) (used : list dotted) : option (list stmt * list dotted) :=
   let lay := c_lay c in
   match c_action c with
-  | 0%N => option_map (fun l => (l, c_used c)) (organize lay (prefs_of c) (c_used c) (c_exported c) (c_stmts c))
-  | 1%N => Some (expand_stars lay (c_used c) (c_exported c) (c_stmts c), c_used c)
-  | 2%N => Some (relatives_to_absolutes lay (c_stmts c), c_used c)
-  | 3%N => froms_to_imports lay (prefs_of c) (c_used c) (c_exported c) (c_stmts c)
-  | _ => handle_long_imports lay (prefs_of c) (c_used c) (c_exported c) (c_stmts c)
+  | 0%N => option_map (fun l => (l, used)) (organize lay (prefs_of c) used (c_exported c) stmts)
+  | 1%N => Some (expand_stars lay used (c_exported c) stmts, used)
+  | 2%N => Some (relatives_to_absolutes lay stmts, used)
+  | 3%N => froms_to_imports lay (prefs_of c) used (c_exported c) stmts
+  | _ => handle_long_imports lay (prefs_of c) used (c_exported c) stmts
   end.
+Definition run_model (c : case) : option (list stmt * list dotted) := model_on c (c_stmts c) (c_used c).
 
 Definition infos_eqb : list info -> list info -> bool := list_eqb info_eqb.
 
@@ -87,7 +97,8 @@ Definition in_domain (c : case) : bool :=
   | _ => false
   end.
 Definition in_run_domain (c : case) : bool :=
-  in_domain c && c_faithful c &&
+  in_domain c && c_faithful c && subset (closure (c_true_used c)) (closure (c_used c)) &&
+  match c_hidden c with [] => true | _ => false end &&
   match c_action c with
   | 0%N => submods_ok c
   | 1%N => submods_ok c      (* an expanded star import that binds nothing used is dropped *)
@@ -138,6 +149,101 @@ Fixpoint domain_from (i : N) (cs : list case) : list (N * N) :=
               else domain_from (N.succ i) r
   end.
 Definition in_domain_indices (cs : list case) : list (N * N) := domain_from 0 cs.
+
+(* ------------------------------------------------------------------ what the model predicts for the oracle
+   A failure of the oracle is attributed to a recorded finding only when the model, evaluated against the
+   specification with CPython's star sets, predicts a failure of that kind on this very input:
+   bit 1: some used primary or __all__ name denotes something else afterwards, or reaches a submodule
+          that is no longer loaded;  bit 2: a second application changes the import statements or the
+          used primaries. *)
+Definition py_lay (c : case) : layout :=
+  {| l_star := c_pystar c ++ l_star (c_lay c); l_abs := l_abs (c_lay c); l_kind := l_kind (c_lay c) |}.
+
+Definition abs_of (lay : layout) (m : dotted) (lv : N) : option dotted :=
+  match assoc modref_eqb (m, lv) (l_abs lay) with
+  | Some a => Some a
+  | None => if N.eqb lv 0 then Some m else None
+  end.
+
+(* the modules an import statement loads: import a.b.c loads a, a.b, a.b.c; from m import n loads m and,
+   when m.n is a module, m.n *)
+Definition loads_info (lay : layout) (mods : list dotted) (i : info) : list dotted :=
+  match i with
+  | Normal ps => flat_map (fun p => prefixes (fst p)) ps
+  | From m lv ps =>
+      match abs_of lay m lv with
+      | Some a => prefixes a ++ flat_map (fun p => if dmem (a ++ [fst p]) mods then [a ++ [fst p]] else []) ps
+      | None => []
+      end
+  | FromStar m lv => match abs_of lay m lv with Some a => prefixes a | None => [] end
+  | Empty => []
+  end.
+Definition loads (lay : layout) (mods : list dotted) (l : list stmt) : list dotted :=
+  flat_map (fun s => loads_info lay mods (s_info s)) l.
+
+(* what a primary denotes when the module runs: level and canonical path, and whether every submodule on
+   the way is loaded *)
+Definition denotes (lay : layout) (mods : list dotted) (l : list stmt) (u : dotted) : option (N * dotted * bool) :=
+  match u with
+  | [] => None
+  | h :: r =>
+      match env (bindings lay l) h with
+      | None => None
+      | Some o =>
+          let base := snd o in
+          let full := base ++ r in
+          Some (snd (fst o), full,
+                forallb (fun q => negb (Nat.ltb (length base) (length q)) || negb (dmem q mods)
+                                  || dmem q (loads lay mods l)) (prefixes full))
+      end
+  end.
+
+Definition den_eqb (a b : option (N * dotted * bool)) : bool :=
+  match a, b with
+  | Some x, Some y => N.eqb (fst (fst x)) (fst (fst y)) && dotted_eqb (snd (fst x)) (snd (fst y)) && Bool.eqb (snd x) (snd y)
+  | None, None => true
+  | _, _ => false
+  end.
+
+Fixpoint pairwise_same (lay : layout) (mods : list dotted) (before after : list stmt) (us us' : list dotted) : bool :=
+  match us, us' with
+  | u :: r, u' :: r' =>
+      (match denotes lay mods before u with
+       | None => true                                   (* not bound by an import (a builtin, a definition) *)
+       | d => den_eqb (denotes lay mods after u') d
+       end) && pairwise_same lay mods before after r r'
+  | [], [] => true
+  | _, _ => false
+  end.
+
+Definition predicts_semantic (c : case) : bool :=
+  match run_model c with
+  | None => false
+  | Some (l, us) =>
+      let ex := map (fun n => [n]) (c_exported c) in
+      (* the primaries rope's finder does not see are not renamed *)
+      let extra := c_hidden c in
+      negb (pairwise_same (py_lay c) (c_mods c) (c_stmts c) l (c_used c ++ extra ++ ex) (us ++ extra ++ ex))
+  end.
+
+Definition predicts_idempotence (c : case) : bool :=
+  match run_model c with
+  | None => false
+  | Some (l, us) =>
+      match model_on c l us with
+      | None => true
+      | Some (l2, us2) => negb (infos_eqb (map s_info l2) (map s_info l)) || negb (list_eqb dotted_eqb us2 us)
+      end
+  end.
+
+Fixpoint predictions_from (i : N) (cs : list case) : list (N * N) :=
+  match cs with
+  | [] => []
+  | c :: r =>
+      let bits := ((if predicts_semantic c then 1 else 0) + (if predicts_idempotence c then 2 else 0))%N in
+      if N.eqb bits 0 then predictions_from (N.succ i) r else (i, bits) :: predictions_from (N.succ i) r
+  end.
+Definition predictions (cs : list case) : list (N * N) := predictions_from 0 cs.
 
 (* ------------------------------------------------------------------ text layout stream *)
 From RopeVerif.C07 Require Import Layout.
@@ -192,3 +298,33 @@ Fixpoint lmismatches_from (i : N) (cs : list lcase) : list (N * N) :=
       if N.eqb code 0 then lmismatches_from (N.succ i) r else (i, code) :: lmismatches_from (N.succ i) r
   end.
 Definition lmismatches (cs : list lcase) : list (N * N) := lmismatches_from 0 cs.
+
+(* ------------------------------------------------------------------ used-name stream *)
+From RopeVerif.C07 Require Import Unbound.
+
+Record ucase := {
+  u_gnames : list text;        (* non-import global names of the module (symtable) *)
+  u_body : list node;          (* the module body abstracted by the harness from CPython's ast + symtable *)
+  u_rope : list dotted;        (* ModuleImports._get_unbound_names(pymodule) *)
+  u_used : list dotted;        (* the used primaries in rope's view that the harness computed on its own (input
+                                  of the other streams) *)
+  u_true : list dotted         (* the primaries CPython's scoping uses (symtable), the oracle's side *)
+}.
+
+(* 0 agree; 7 rope's unbound names differ from the model; 8 the harness's own analysis differs from the model;
+   9 the specification py_unbound_names differs from CPython's symtable *)
+Definition urun_case (c : ucase) : N :=
+  let m := unbound_names (u_gnames c) (u_body c) in
+  if negb (set_eqb m (u_rope c)) then 7%N
+  else if negb (set_eqb m (closure (u_used c))) then 8%N
+  else if negb (set_eqb (py_unbound_names (u_gnames c) (u_body c)) (closure (u_true c))) then 9%N
+  else 0%N.
+
+Fixpoint umismatches_from (i : N) (cs : list ucase) : list (N * N) :=
+  match cs with
+  | [] => []
+  | c :: r =>
+      let code := urun_case c in
+      if N.eqb code 0 then umismatches_from (N.succ i) r else (i, code) :: umismatches_from (N.succ i) r
+  end.
+Definition umismatches (cs : list ucase) : list (N * N) := umismatches_from 0 cs.
